@@ -1,5 +1,4 @@
-OPEN "pre.txt" FOR RANDOM AS #1 LEN = 4
-FIELD #1, 4 AS F1$
-LSET F1$ = "wxyz"
-PUT #1, 1
-NAME "a.txt" AS "b.txt"
+OPEN "a.txt" FOR APPEND AS #2
+PRINT #2, "p" + CHR$(200) + "q"
+NAME "pre.txt" AS "b.txt"
+PRINT "end"
